@@ -119,6 +119,10 @@ class JWTToken(Token):
         except JWSException:
             raise UnknownToken()
 
+        if _payload.get("iss") != self.issuer:
+            # verified with the keys of whoever the token names as issuer; only my own tokens count
+            raise UnknownToken()
+
         return _payload
 
     def info(self, token):
